@@ -32,14 +32,14 @@ Qed.
 
 Lemma add_order_expected t h k g : forall x, Permutation (add_order t h k g x) (expected t h k g x).
 Proof.
-  induction g as [fs n e cs IH] using graph_ind'. intros x. rewrite Forall_forall in IH.
+  induction g as [fs n e p cs IH] using graph_ind'. intros x. rewrite Forall_forall in IH.
   cbn [add_order expected]. rewrite !app_assoc. rewrite Permutation_app_comm. apply Permutation_app_head.
   rewrite <- !app_assoc. apply node_perm. exact IH.
 Qed.
 
 Lemma rem_order_expected t h k g : forall x, Permutation (rem_order t h k g x) (expected t h k g x).
 Proof.
-  induction g as [fs n e cs IH] using graph_ind'. intros x. rewrite Forall_forall in IH.
+  induction g as [fs n e p cs IH] using graph_ind'. intros x. rewrite Forall_forall in IH.
   cbn [rem_order expected]. apply Permutation_app_head.
   rewrite <- (node_perm t h k fs n cs x (fun c y => rem_order t h k c y) IH).
   set (U := flat_map (fun f => if n then [(x, f, KUser k)] else []) (obs_fields t x fs)).
@@ -66,6 +66,13 @@ Proof.
     apply add_order_expected.
 Qed.
 
+Lemma add_objs_w_ok t h k c ys : (forall y, In y ys -> walkable t h c y = true) ->
+  forall H, add_objs_w t h k c ys H = (add_objs t h k c ys H, true).
+Proof.
+  unfold add_objs. induction ys as [|y ys IH]; intros W H; cbn [add_objs_w fold_left]; [reflexivity|].
+  rewrite (W y (or_introl eq_refl)). apply IH. intros y' I. apply W. right. exact I.
+Qed.
+
 Lemma rem_objs_complete t h k c ys : forall H K,
   Permutation H (K ++ sumexp t h k [c] ys) ->
   exists H1, rem_objs t h k c ys H = (H1, true) /\ Permutation H1 K.
@@ -80,11 +87,13 @@ Proof.
 Qed.
 
 Lemma maintain_complete t h strict k c rem add H K :
+  (forall y, In y add -> walkable t h c y = true) ->
   Permutation H (K ++ sumexp t h k [c] rem) ->
   exists H', maintain t h strict k c rem add H = (H', true) /\ Permutation H' (K ++ sumexp t h k [c] add).
 Proof.
-  intros P. unfold maintain. destruct (rem_objs_complete t h k c rem H K P) as [H1 [E1 P1]].
-  rewrite E1. eexists. split; [reflexivity|]. rewrite add_objs_perm. apply Permutation_app_tail. exact P1.
+  intros W P. unfold maintain. destruct (rem_objs_complete t h k c rem H K P) as [H1 [E1 P1]].
+  rewrite E1. cbn [orb]. rewrite (add_objs_w_ok t h k c add W).
+  eexists. split; [reflexivity|]. rewrite add_objs_perm. apply Permutation_app_tail. exact P1.
 Qed.
 
 (* ---------- the notifier loop ---------- *)
@@ -118,24 +127,25 @@ Proof.
 Qed.
 
 Lemma notify_loop_spec t h strict rem add : forall ns seen H K,
+  (forall kc y, In kc (maints_of ns) -> In y add -> walkable t h (snd kc) y = true) ->
   Permutation H (K ++ S_of t h (maints_of ns) rem) ->
   exists H' ks, notify_loop t h strict ns seen rem add H = (H', ks, true)
     /\ Permutation H' (K ++ S_of t h (maints_of ns) add)
     /\ NoDup ks
     /\ (forall k, In k ks <-> In k (users_of ns) /\ ~ In k seen).
 Proof.
-  induction ns as [|[k|k c|k c] ns IH]; intros seen H K P.
+  induction ns as [|[k|k c|k c] ns IH]; intros seen H K W P.
   - exists H, []. cbn in *. split; [reflexivity|]. split; [exact P|]. split; [constructor|].
     intros k. tauto.
   - cbn [notify_loop]. cbn [maints_of users_of flat_map app] in *.
     fold (maints_of ns) in *. fold (users_of ns) in *.
     destruct (mem_key k seen) eqn:Ms.
-    + destruct (IH seen H K P) as [H' [ks [E [PH [ND Sp]]]]]. exists H', ks.
+    + destruct (IH seen H K W P) as [H' [ks [E [PH [ND Sp]]]]]. exists H', ks.
       split; [exact E|]. split; [exact PH|]. split; [exact ND|].
       intros k0. rewrite Sp. split.
       * intros [I NS]. split; [right; exact I|exact NS].
       * intros [[<-|I] NS]; [apply mem_key_In in Ms; contradiction|split; assumption].
-    + destruct (IH (k :: seen) H K P) as [H' [ks [E [PH [ND Sp]]]]]. rewrite E.
+    + destruct (IH (k :: seen) H K W P) as [H' [ks [E [PH [ND Sp]]]]]. rewrite E.
       exists H', (k :: ks).
       split; [reflexivity|]. split; [exact PH|]. split.
       * constructor; [|exact ND]. intros I. apply Sp in I. destruct I as [_ I]. apply I. left. reflexivity.
@@ -151,22 +161,24 @@ Proof.
     fold (maints_of ns) in *. fold (users_of ns) in *.
     change (S_of t h ((k, c) :: maints_of ns) rem) with (sumexp t h k [c] rem ++ S_of t h (maints_of ns) rem) in P.
     destruct (maintain_complete t h strict k c rem add H (K ++ S_of t h (maints_of ns) rem)) as [H1 [E1 P1]].
+    { intros y Iy. apply (W (k, c) y (or_introl eq_refl) Iy). }
     { rewrite P. rewrite <- app_assoc. apply Permutation_app_head. apply Permutation_app_comm. }
     rewrite E1.
     destruct (IH seen H1 (K ++ sumexp t h k [c] add)) as [H' [ks [E [PH [ND Sp]]]]].
+    { intros kc y I Iy. apply (W kc y (or_intror I) Iy). }
     { rewrite P1. rewrite <- !app_assoc. apply Permutation_app_head. apply Permutation_app_comm. }
     exists H', ks. split; [exact E|]. split; [|split; [exact ND|exact Sp]].
     rewrite PH. change (S_of t h ((k, c) :: maints_of ns) add) with (sumexp t h k [c] add ++ S_of t h (maints_of ns) add).
     rewrite <- !app_assoc. reflexivity.
   - cbn [notify_loop]. cbn [maints_of users_of flat_map app] in *.
-    fold (maints_of ns) in *. fold (users_of ns) in *. apply IH. exact P.
+    fold (maints_of ns) in *. fold (users_of ns) in *. apply IH; assumption.
 Qed.
 
 (* ---------- what stays when the content of a slot is taken away ---------- *)
 Fixpoint skeleton (t : traits) (h : heap) (k : hkey) (g : graph) (x o : oid) (fo : fname) {struct g}
   : list (oid * fname * kind) :=
   match g with
-  | G fs n e cs =>
+  | G fs n e p cs =>
       (if e then [(x, TA, KAdded k g)] else []) ++
       flat_map (fun f =>
         if t x f then
@@ -181,7 +193,7 @@ Lemma expected_split t h k o fo g : forall x,
   Permutation (expected t h k g x)
               (skeleton t h k g x o fo ++ flat_map (fun c => sumexp t h k [c] (h o fo)) (occ t h g x o fo)).
 Proof.
-  induction g as [fs n e cs IH] using graph_ind'. intros x acyc. rewrite Forall_forall in IH.
+  induction g as [fs n e p cs IH] using graph_ind'. intros x acyc. rewrite Forall_forall in IH.
   cbn [expected skeleton occ] in *. rewrite <- app_assoc. apply Permutation_app_head.
   rewrite interleave. apply Permutation_flat_map_In. intros f Hf.
   assert (forall c, In c (if t x f then (if slot_eqb x f o fo then cs else []) ++
@@ -224,24 +236,30 @@ Definition inv (st : state) : Prop :=
 (* the changed slot is not the trait_added event trait, and it is edge-acyclic for the registrations *)
 Definition edge_acyclic (t : traits) (h : heap) (rs : list reg) (o : oid) (fo : fname) (news : list oid) : Prop :=
   fo <> TA /\
-  forall kc, In kc (occ_all t h rs o fo) -> forall y, In y (h o fo) \/ In y news -> visits t h (snd kc) y o fo = false.
+  (forall kc, In kc (occ_all t h rs o fo) -> forall y, In y (h o fo) \/ In y news -> visits t h (snd kc) y o fo = false) /\
+  (* the residual graphs can be hooked on the new content (no missing non-optional trait) *)
+  (forall kc, In kc (occ_all t h rs o fo) -> forall y, In y news -> walkable t (upd h o fo news) (snd kc) y = true).
 
 Lemma edge_acyclic_b_spec t h rs o fo news :
   edge_acyclic_b t h rs o fo news = true -> edge_acyclic t h rs o fo news.
 Proof.
   unfold edge_acyclic_b, edge_acyclic. rewrite andb_true_iff, forallb_forall. intros [N A].
-  split; [apply negb_true_iff in N; apply Nat.eqb_neq in N; exact N|].
-  intros kc Hkc y Hy.
-  specialize (A kc Hkc). rewrite forallb_forall in A. specialize (A y).
-  rewrite in_app_iff in A. apply negb_true_iff. apply A. exact Hy.
+  split; [apply negb_true_iff in N; apply Nat.eqb_neq in N; exact N|]. split.
+  - intros kc Hkc y Hy.
+    specialize (A kc Hkc). apply andb_true_iff in A. destruct A as [A _]. rewrite forallb_forall in A. specialize (A y).
+    rewrite in_app_iff in A. apply negb_true_iff. apply A. exact Hy.
+  - intros kc Hkc y Hy. specialize (A kc Hkc). apply andb_true_iff in A. destruct A as [_ A].
+    rewrite forallb_forall in A. apply A. exact Hy.
 Qed.
 
 (* on a ranked heap (a DAG, in particular a tree) whose rank also dominates the new content of
    the slot, the change is edge-acyclic for every set of registrations *)
 Lemma ranked_edge_acyclic_lemma t rank h rs o fo news :
-  fo <> TA -> ranked rank h -> (forall y, In y news -> rank o < rank y) -> edge_acyclic t h rs o fo news.
+  fo <> TA -> ranked rank h -> (forall y, In y news -> rank o < rank y) ->
+  (forall kc, In kc (occ_all t h rs o fo) -> forall y, In y news -> walkable t (upd h o fo news) (snd kc) y = true) ->
+  edge_acyclic t h rs o fo news.
 Proof.
-  intros NT R N. split; [exact NT|]. intros kc _ y Hy.
+  intros NT R N W. split; [exact NT|]. split; [|exact W]. intros kc _ y Hy.
   destruct (visits t h (snd kc) y o fo) eqn:V; [exfalso|reflexivity].
   apply (visits_rank t rank h o fo (snd kc) R) in V.
   destruct Hy as [Hy|Hy]; [pose proof (R o fo y Hy)|pose proof (N y Hy)]; lia.
@@ -264,7 +282,7 @@ Qed.
 Lemma hooks_on_visited t h k g : forall x z fz kd,
   In (z, fz, kd) (expected t h k g x) -> visits t h g x z fz = true \/ fz = TA.
 Proof.
-  induction g as [fs n e cs IH] using graph_ind'. intros x z fz kd I. rewrite Forall_forall in IH.
+  induction g as [fs n e p cs IH] using graph_ind'. intros x z fz kd I. rewrite Forall_forall in IH.
   cbn [expected] in I. apply in_app_or in I. destruct I as [I|I].
   - right. destruct e; [|destruct I]. destruct I as [E|[]]. inversion E. reflexivity.
   - apply in_flat_map in I. destruct I as [f [Hf I]]. destruct (t x f) eqn:Tf; [|destruct I].
@@ -335,6 +353,16 @@ Proof.
   apply (off_slot_perm _ _ _ _ (rem_order_expected t h k c y)). apply expected_off_slot; [exact NT|].
   apply V. left. reflexivity.
 Qed.
+Lemma add_objs_w_on_slot t h k c ys o fo : fo <> TA -> (forall y, In y ys -> visits t h c y o fo = false) ->
+  forall H, on_slot (fst (add_objs_w t h k c ys H)) o fo = on_slot H o fo.
+Proof.
+  intros NT. induction ys as [|y ys IH]; intros V H; cbn [add_objs_w]; [reflexivity|].
+  destruct (walkable t h c y); [|reflexivity].
+  rewrite IH by (intros y' I; apply V; right; exact I). rewrite on_slot_app.
+  rewrite (on_slot_off (add_order t h k c y)); [apply app_nil_r|].
+  apply (off_slot_perm _ _ _ _ (add_order_expected t h k c y)). apply expected_off_slot; [exact NT|].
+  apply V. left. reflexivity.
+Qed.
 Lemma maintain_on_slot t h strict k c rem add o fo : fo <> TA ->
   (forall y, In y rem \/ In y add -> visits t h c y o fo = false) ->
   forall H, on_slot (fst (maintain t h strict k c rem add H)) o fo = on_slot H o fo.
@@ -342,8 +370,8 @@ Proof.
   intros NT V H. unfold maintain.
   pose proof (rem_objs_on_slot t h k c rem o fo NT (fun y I => V y (or_introl I)) H) as R.
   destruct (rem_objs t h k c rem H) as [H1 ok]. cbn [fst] in R.
-  destruct ok; [|destruct strict]; cbn [fst];
-    rewrite ?add_objs_on_slot by (try exact NT; intros y I; apply V; right; exact I); exact R.
+  destruct (ok || negb strict); cbn [fst]; [|exact R].
+  rewrite add_objs_w_on_slot; [exact R|exact NT|intros y I; apply V; right; exact I].
 Qed.
 Lemma notify_loop_on_slot t h strict rem add o fo : fo <> TA -> forall ns seen H,
   (forall kc y, In kc (maints_of ns) -> In y rem \/ In y add -> visits t h (snd kc) y o fo = false) ->
@@ -380,7 +408,7 @@ Section Change.
       /\ NoDup ks
       /\ (forall k, In k ks <-> exists g, In (k, g) rs /\ matched t h g (snd k) o fo = true).
   Proof.
-    destruct Hacyc as [NT Hac].
+    destruct Hacyc as [NT [Hac Hw]].
     set (H := st_hooks st). set (h' := upd h o fo news).
     assert (Permutation H (expected_all t h rs)) as HI by exact Hinv.
     set (M := maint_on H o fo). set (O := occ_all t h rs o fo).
@@ -406,7 +434,10 @@ Section Change.
     assert (Permutation H (K ++ S_of t h' (maints_of (on_slot H o fo)) removed)) as SPLIT'
       by (rewrite maints_of_on_slot; exact SPLIT).
     unfold change. fold h. fold t. fold h'. fold H.
-    destruct (notify_loop_spec t h' strict removed added (on_slot H o fo) [] H K SPLIT')
+    assert (forall kc y, In kc (maints_of (on_slot H o fo)) -> In y added -> walkable t h' (snd kc) y = true) as WK.
+    { intros kc y Ikc Iy. apply Hw; [apply MinO; unfold M; rewrite <- maints_of_on_slot; exact Ikc|].
+      apply (Permutation_in y (Permutation_sym Hnew)). apply in_or_app. right. exact Iy. }
+    destruct (notify_loop_spec t h' strict removed added (on_slot H o fo) [] H K WK SPLIT')
       as [H' [ks [E [PH [ND Sp]]]]].
     rewrite E.
     (* the live-iteration round is empty: the maintainers did not touch this slot's list *)
@@ -569,7 +600,7 @@ Qed.
 
 Lemma restricted_add_own t h k g x f : h x f = [] -> restricted_add t h k g x f = own_for k x f g.
 Proof.
-  intros E. destruct g as [fs n e cs]. cbn [restricted_add own_for]. apply flat_map_ext_In. intros f' _.
+  intros E. destruct g as [fs n e p cs]. cbn [restricted_add own_for]. apply flat_map_ext_In. intros f' _.
   destruct (Nat.eqb f' f); [|reflexivity]. rewrite E. unfold own. rewrite app_assoc.
   rewrite (flat_map_nil_In (fun c : graph => flat_map (fun y => add_order t h k c y) []) cs) by reflexivity.
   apply app_nil_r.
@@ -615,9 +646,9 @@ Qed.
 
 Lemma step_spec st o : inv st -> op_hyp st o = true -> step_ok st o.
 Proof.
-  intros Hinv Hyp. unfold step_ok. destruct o as [k r g|k r g|k r gs|k r gs|x f v|x f items de|x f|c f i n vs|x|x f|x f|c f fi i n items];
+  intros Hinv Hyp. unfold step_ok. destruct o as [k r g|k r g|k r gs|k r gs|x f v|x f items de|x f|c f i n vs|x|x f|x f|x f items|c f fi i n items];
     cbn [step notified op_hyp] in *.
-  12: { (* SpliceCont *)
+  13: { (* SpliceCont *)
     apply andb_true_iff in Hyp. destruct Hyp as [Hyp Ac]. apply andb_true_iff in Hyp. destruct Hyp as [Nf Fr].
     apply negb_true_iff in Nf.
     set (c' := st_next st) in *. set (h := st_heap st) in *.
@@ -639,6 +670,22 @@ Proof.
       apply negb_true_iff. apply (Fr (k0, g0) Hr).
     + rewrite matched_frame; [exact Hm|]. unfold fresh_b in Fr. rewrite forallb_forall in Fr.
       apply negb_true_iff. apply (Fr (k0, g0) Hr). }
+  12: { (* TouchItems *)
+    destruct (st_heap st x f) eqn:Q.
+    2: { cbn. split; [exact Hinv|]. split; reflexivity. }
+    apply andb_true_iff in Hyp. destruct Hyp as [Fr Ac].
+    set (c := st_next st) in *. set (fc := items_field f) in *.
+    set (st1 := mkState (st_traits st) (upd (st_heap st) c fc items) (st_hooks st) (st_regs st) (S c)).
+    assert (inv st1) as I1.
+    { unfold inv, st1. cbn [st_hooks st_heap st_regs st_traits]. rewrite (expected_all_fresh _ _ _ _ _ _ Fr). exact Hinv. }
+    assert (st_heap st1 x f = []) as SL.
+    { unfold st1. cbn [st_heap]. rewrite upd_other_slot; [exact Q|]. unfold slot_eqb.
+      replace (Nat.eqb f fc) with false; [apply andb_false_r|].
+      symmetry. apply Nat.eqb_neq. unfold fc, items_field. lia. }
+    pose proof (change_ok st1 x f [c] [] [c] [] true false I1) as C. cbn [app] in C. rewrite SL in C.
+    specialize (C (Permutation_refl _) (Permutation_refl _) (edge_acyclic_b_spec _ _ _ _ _ _ Ac)).
+    destruct (change st1 x f [c] [] [c] true false) as [st' ob]. destruct C as [I [O [_ [_ Cs]]]].
+    cbn [ob_out ob_calls]. split; [exact I|]. split; [exact O|]. exact Cs. }
   11: discriminate.
   10: { (* AddTrait *)
     destruct (st_traits st x f) eqn:Nt.
@@ -658,11 +705,11 @@ Proof.
         * intros I. split; [|intros []]. unfold users_on in *. apply in_flat_map in I. destruct I as [hk [Ihk Iu]].
           apply in_flat_map. exists hk. split; [|exact Iu]. apply (Permutation_in hk (Permutation_sym Hinv)). exact Ihk.
       + intros c Hc. apply in_map_iff in Hc. destruct Hc as [k [<- _]]. reflexivity. }
-  3: { destruct (observe_all_spec k r gs st Hinv) as [A _]. split; [exact A|]. split; reflexivity. }
+  3: { rewrite Hyp. destruct (observe_all_spec k r gs st Hinv) as [A _]. split; [exact A|]. split; reflexivity. }
   3: { destruct (unobserve_all_spec k r gs st Hinv Hyp) as [st' [E [I' _]]]. rewrite E.
        split; [exact I'|]. split; reflexivity. }
   - (* Observe *)
-    split; [|split; reflexivity]. unfold inv in *. cbn [st_hooks st_heap st_regs].
+    rewrite Hyp. split; [|split; reflexivity]. unfold inv in *. cbn [st_hooks st_heap st_regs].
     unfold expected_all in *. rewrite flat_map_app. cbn [flat_map]. rewrite app_nil_r.
     apply Permutation_app; [exact Hinv|]. apply add_order_expected.
   - (* Unobserve *)
@@ -827,7 +874,7 @@ Proof.
   set (keys := map call_key (ob_calls ob)) in *.
   assert (filter (fun k => negb (mem_key k (expect_keys rs t hb x f))) keys = []) as BAD.
   { apply filter_nil. intros k I. apply negb_false_iff. apply mem_key_In. apply expect_keys_In. apply SUB. exact I. }
-  rewrite BAD. cbn [forallb]. rewrite OK. cbn [is_ok]. rewrite (nodup_b_of_NoDup _ ND). rewrite CO.
+  rewrite BAD. cbn [forallb]. rewrite OK. cbn [out_ok]. rewrite (nodup_b_of_NoDup _ ND). rewrite CO.
   cbn [chk app].
   assert (match classify t hb (apply_delta hb (ob_delta ob)) o with
           | Exact => forallb (fun k => mem_key k keys) (expect_keys rs t hb x f) | _ => true end = true) as C1.
@@ -898,9 +945,9 @@ Lemma step_law st o : inv st -> op_hyp st o = true ->
   /\ law_regs (st_regs st) o (snd (step st o)) = st_regs (fst (step st o))
   /\ law_traits (st_traits st) o (snd (step st o)) = st_traits (fst (step st o)).
 Proof.
-  intros Hinv Hyp. destruct o as [k r g|k r g|k r gs|k r gs|x f v|x f items de|x f|c f i n vs|x|x f|x f|c f fi i n items];
+  intros Hinv Hyp. destruct o as [k r g|k r g|k r gs|k r gs|x f v|x f items de|x f|c f i n vs|x|x f|x f|x f items|c f fi i n items];
     cbn [step op_hyp] in *.
-  12: { (* SpliceCont *)
+  13: { (* SpliceCont *)
     apply andb_true_iff in Hyp. destruct Hyp as [Hyp Ac]. apply andb_true_iff in Hyp. destruct Hyp as [Nf Fr].
     apply negb_true_iff in Nf.
     set (c' := st_next st) in *. set (h := st_heap st) in *.
@@ -934,6 +981,34 @@ Proof.
     + cbn [classify]. discriminate.
     + apply forallb_map_calls. intros k0. cbn [call_ok]. rewrite !Nat.eqb_refl. cbn [andb].
       unfold ha. rewrite upd_same. apply perm_eqb_of_perm. apply splice_delta. }
+  12: { (* TouchItems *)
+    destruct (st_heap st x f) eqn:Q.
+    2: { cbn [quiet fst snd ob_delta apply_delta fold_left law_regs law_traits ob_out].
+         split; [|split; [reflexivity|split; reflexivity]].
+         apply (quiet_law st _ x f); [reflexivity|]. cbn [classify]. discriminate. }
+    apply andb_true_iff in Hyp. destruct Hyp as [Fr Ac].
+    set (c := st_next st) in *. set (fc := items_field f) in *. set (h := st_heap st) in *.
+    set (st1 := mkState (st_traits st) (upd h c fc items) (st_hooks st) (st_regs st) (S c)).
+    assert (inv st1) as I1.
+    { unfold inv, st1. cbn [st_hooks st_heap st_regs st_traits]. rewrite (expected_all_fresh _ _ _ _ _ _ Fr). exact Hinv. }
+    assert (st_heap st1 x f = []) as SL.
+    { unfold st1. cbn [st_heap]. rewrite upd_other_slot; [exact Q|]. unfold slot_eqb.
+      replace (Nat.eqb f fc) with false; [apply andb_false_r|].
+      symmetry. apply Nat.eqb_neq. unfold fc, items_field. lia. }
+    assert (edge_acyclic (st_traits st1) (st_heap st1) (st_regs st1) x f [c]) as Ac' by (apply edge_acyclic_b_spec; exact Ac).
+    assert (Permutation (st_heap st1 x f) ([] ++ [])) as Ho by (rewrite SL; reflexivity).
+    destruct (change_spec st1 x f [c] [] [c] [] true false I1 Ho (Permutation_refl _) Ac')
+      as [H' [ks [E [PH [ND Sp]]]]].
+    rewrite E. cbn [fst snd st_heap st_regs st_traits ob_delta ob_out ob_calls st1 law_regs law_traits].
+    split; [|split; [reflexivity|split; reflexivity]].
+    apply (law_step_from_facts (st_traits st) h (st_regs st) (TouchItems x f items) _ x f eq_refl);
+      cbn [ob_out ob_calls ob_delta map].
+    + reflexivity.
+    + constructor.
+    + intros k0 [].
+    + cbn [classify]. discriminate.
+    + reflexivity.
+    + reflexivity. }
   11: discriminate.
   10: { (* AddTrait *)
     destruct (st_traits st x f) eqn:Nt.
@@ -962,12 +1037,12 @@ Proof.
     - intros _ k g Hr Hm. apply Sp'. exists g. tauto.
     - cbn [classify]. rewrite Nt. discriminate.
     - apply forallb_map_calls. intros k. cbn [call_ok]. rewrite !Nat.eqb_refl. reflexivity. }
-  3: { destruct (observe_all_spec k r gs st Hinv) as [_ [B [C D]]]. cbn [fst snd ob_delta ob_out law_regs law_traits].
+  3: { rewrite Hyp. destruct (observe_all_spec k r gs st Hinv) as [_ [B [C D]]]. cbn [fst snd ob_delta ob_out law_regs law_traits].
        split; [reflexivity|]. split; [cbn; symmetry; exact B|]. split; symmetry; assumption. }
   3: { destruct (unobserve_all_spec k r gs st Hinv Hyp) as [st' [E [_ [B [C D]]]]]. rewrite E.
        cbn [fst snd ob_delta ob_out law_regs law_traits]. split; [reflexivity|]. split; [cbn; symmetry; exact B|].
        split; symmetry; assumption. }
-  - (* Observe *) cbn. repeat split; reflexivity.
+  - (* Observe *) rewrite Hyp. cbn. repeat split; reflexivity.
   - (* Unobserve *)
     pose proof (remove_reg_perm _ _ Hyp) as PR.
     destruct (remove_all_complete (rem_order (st_traits st) (st_heap st) (k, r) g r) (st_hooks st)
@@ -1078,3 +1153,112 @@ Proof.
   destruct (step st o) as [st' ob]. cbn [fst snd] in *. cbn [law_hist].
   rewrite L. cbn [map app]. rewrite D, RG, TR. apply IH; tauto.
 Qed.
+
+(* ---------- a maintainer that cannot hook the new value: the old value is unhooked all the same ---------- *)
+Lemma failed_registration_lemma st k r g :
+  walkable (st_traits st) (st_heap st) g r = false ->
+  step st (Observe k r g) = (st, mkObs (Raise ValueError) [] []).
+Proof. intros W. cbn [step]. rewrite W. reflexivity. Qed.
+
+Lemma S_of_nil t h M : S_of t h M [] = [].
+Proof. unfold S_of. apply flat_map_nil_In. reflexivity. Qed.
+
+Lemma notify_loop_fail_single t h strict rem add k c H1 : forall ns seen H,
+  maints_of ns = [(k, c)] -> maintain t h strict k c rem add H = (H1, false) ->
+  exists ks, notify_loop t h strict ns seen rem add H = (H1, ks, false).
+Proof.
+  induction ns as [|[k0|k0 c0|k0 c0] ns IH]; intros seen H M E; cbn [maints_of flat_map app] in M.
+  - discriminate.
+  - fold (maints_of ns) in M. cbn [notify_loop]. destruct (mem_key k0 seen).
+    + apply IH; assumption.
+    + destruct (IH (k0 :: seen) H M E) as [ks Eq]. rewrite Eq. eexists. reflexivity.
+  - fold (maints_of ns) in M. inversion M; subst. cbn [notify_loop]. rewrite E. eexists. reflexivity.
+  - fold (maints_of ns) in M. cbn [notify_loop]. apply IH; assumption.
+Qed.
+
+Lemma change_fails_single st o fo news removed added keep prevented strict k c y ys :
+  inv st ->
+  Permutation (st_heap st o fo) (keep ++ removed) -> Permutation news (keep ++ added) ->
+  fo <> TA ->
+  (forall kc, In kc (occ_all (st_traits st) (st_heap st) (st_regs st) o fo) ->
+     forall z, In z (st_heap st o fo) \/ In z news -> visits (st_traits st) (st_heap st) (snd kc) z o fo = false) ->
+  maint_on (st_hooks st) o fo = [(k, c)] ->
+  added = y :: ys -> walkable (st_traits st) (upd (st_heap st) o fo news) c y = false ->
+  ob_out (snd (change st o fo news removed added prevented strict)) = Raise ValueError
+  /\ st_heap (fst (change st o fo news removed added prevented strict)) = upd (st_heap st) o fo news
+  /\ Permutation (st_hooks (fst (change st o fo news removed added prevented strict)))
+                 (expected_all (st_traits st) (upd (st_heap st) o fo keep) (st_regs st)).
+Proof.
+  intros Hinv Hold Hnew NT Hac HM EA NW.
+  set (h := st_heap st) in *. set (t := st_traits st) in *. set (rs := st_regs st) in *.
+  set (H := st_hooks st) in *. set (h' := upd h o fo news).
+  assert (Permutation H (expected_all t h rs)) as HI by exact Hinv.
+  set (M := maint_on H o fo) in *. set (O := occ_all t h rs o fo) in *.
+  assert (Permutation M O) as MO.
+  { subst M O. rewrite <- maint_on_expected_all. unfold maint_on. apply flat_map_perm. exact HI. }
+  assert (forall kc, In kc M -> In kc O) as MinO by (intros kc; apply Permutation_in; exact MO).
+  assert (forall z, In z removed -> In z (h o fo)) as RinO.
+  { intros z Iz. apply (Permutation_in z (Permutation_sym Hold)). apply in_or_app. right. exact Iz. }
+  assert (forall v ys', (forall z, In z ys' -> In z (h o fo)) -> S_of t (upd h o fo v) M ys' = S_of t h M ys') as FR.
+  { intros v ys' Hy. unfold S_of. apply flat_map_ext_In. intros kc Hkc. unfold sumexp.
+    apply flat_map_ext_In. intros z Iz. cbn [flat_map]. f_equal.
+    apply expected_frame. apply Hac; [apply MinO; exact Hkc|left; apply Hy; exact Iz]. }
+  set (K := skeleton_all t h rs o fo ++ S_of t h O keep).
+  assert (Permutation H (K ++ S_of t h M removed)) as SPLIT.
+  { rewrite (S_of_perm_M t h M O removed MO). subst K. rewrite HI.
+    rewrite (expected_split_all t h rs o fo).
+    - fold O. rewrite (S_of_perm_ys t h O _ _ Hold). rewrite S_of_app. rewrite app_assoc. reflexivity.
+    - intros kc Hkc z Hz. apply Hac; [exact Hkc|left; exact Hz]. }
+  (* the only maintainer removes the hooks below the removed objects, then fails to hook y *)
+  assert (exists H1, maintain t h' strict k c removed added H = (H1, false) /\ Permutation H1 K) as [H1 [EM P1]].
+  { unfold maintain.
+    destruct (rem_objs_complete t h' k c removed H K) as [H1 [E1 P1]].
+    { rewrite SPLIT. apply Permutation_app_head. rewrite <- (FR news removed RinO). fold h'.
+      fold M. rewrite HM. unfold S_of. cbn [flat_map fst snd]. rewrite app_nil_r. reflexivity. }
+    rewrite E1. cbn [orb]. rewrite EA. cbn [add_objs_w]. fold h' in NW. rewrite NW.
+    exists H1. split; [reflexivity|exact P1]. }
+  assert (maints_of (on_slot H o fo) = [(k, c)]) as MS by (rewrite maints_of_on_slot; exact HM).
+  destruct (notify_loop_fail_single t h' strict removed added k c H1 (on_slot H o fo) [] H MS EM) as [ks EL].
+  unfold change. fold h t H h'. rewrite EL. rewrite andb_false_r. cbn [notify_loop fst snd ob_out st_heap st_hooks andb].
+  fold M. rewrite HM. rewrite EA. cbn [existsb snd]. fold h' in NW. rewrite NW. cbn [negb orb].
+  split; [reflexivity|]. split; [reflexivity|].
+  (* what is left is what the expressions demand when the slot holds only the kept objects *)
+  apply (inv_preserved_all t h rs o fo keep removed []) with (H := H).
+  - rewrite app_nil_r. symmetry. exact Hold.
+  - intros z Iz. apply RinO. exact Iz.
+  - intros z [].
+  - intros kc Hkc z Hz. apply Hac; [exact Hkc|]. left. destruct Hz as [Hz|Hz]; [exact Hz|].
+    apply (Permutation_in z (Permutation_sym Hold)). apply in_or_app. left. exact Hz.
+  - exact HI.
+  - fold M. rewrite S_of_nil, app_nil_r. rewrite (FR keep removed RinO). rewrite P1. symmetry. exact SPLIT.
+Qed.
+
+(* ---------- the optional flag only matters for failure ---------- *)
+Fixpoint all_optional (g : graph) {struct g} : bool :=
+  match g with G _ _ _ p cs => p && forallb all_optional cs end.
+Fixpoint set_optional (b : bool) (g : graph) {struct g} : graph :=
+  match g with G fs n e _ cs => G fs n e b (map (set_optional b) cs) end.
+
+Lemma all_optional_walkable t h g : all_optional g = true -> forall x, walkable t h g x = true.
+Proof.
+  induction g as [fs n e p cs IH] using graph_ind'. intros A x. rewrite Forall_forall in IH.
+  cbn [all_optional] in A. apply andb_true_iff in A. destruct A as [-> A]. rewrite forallb_forall in A.
+  cbn [walkable]. apply forallb_forall. intros f _. destruct (t x f); [|reflexivity].
+  apply forallb_forall. intros y _. apply forallb_forall. intros c Hc. apply IH; [exact Hc|]. apply A. exact Hc.
+Qed.
+
+Lemma existsb_map' {A B} (q : B -> bool) (g : A -> B) l : existsb q (map g l) = existsb (fun a => q (g a)) l.
+Proof. induction l; cbn; [reflexivity|]. rewrite IHl. reflexivity. Qed.
+
+Lemma matched_set_optional t h b g : forall x o fo,
+  matched t h (set_optional b g) x o fo = matched t h g x o fo.
+Proof.
+  induction g as [fs n e p cs IH] using graph_ind'. intros x o fo. rewrite Forall_forall in IH.
+  cbn [set_optional matched]. apply existsb_ext_In. intros f _. f_equal. f_equal.
+  apply existsb_ext_In. intros y _. rewrite existsb_map'. apply existsb_ext_In. intros c Hc. apply IH. exact Hc.
+Qed.
+
+Lemma failed_registration_all_lemma st k r gs :
+  forallb (fun g => walkable (st_traits st) (st_heap st) g r) gs = false ->
+  step st (ObserveAll k r gs) = (st, mkObs (Raise ValueError) [] []).
+Proof. intros W. cbn [step]. rewrite W. reflexivity. Qed.
